@@ -21,11 +21,11 @@ def C(v):
 
 
 def is_c(a):
-    return a[0] == "c"
+    return isinstance(a, tuple) and len(a) > 0 and a[0] == "c"
 
 
 def is_s(a):
-    return a[0] == "s"
+    return isinstance(a, tuple) and len(a) > 0 and a[0] == "s"
 
 
 def type_range(tk):
@@ -46,7 +46,7 @@ def wrap(v, tk):
 
 
 class Path(object):
-    __slots__ = ("pc", "env", "events", "end", "blocks", "ret", "nforks", "seenf")
+    __slots__ = ("pc", "env", "events", "end", "blocks", "ret", "nforks", "seenf", "callval", "ne")
 
     def __init__(self):
         self.pc = {}
@@ -57,6 +57,8 @@ class Path(object):
         self.ret = None
         self.nforks = 0
         self.seenf = {}
+        self.callval = {}
+        self.ne = {}
 
     def clone(self):
         p = Path()
@@ -68,7 +70,26 @@ class Path(object):
         p.ret = self.ret
         p.nforks = self.nforks
         p.seenf = dict(self.seenf)
+        p.callval = dict(self.callval)
+        p.ne = dict(self.ne)
         return p
+
+    def excluded(self, sym, v):
+        return v in self.ne.get(sym, ())
+
+    def exclude(self, sym, v):
+        self.ne[sym] = frozenset(self.ne.get(sym, ())) | {v}
+        lo, hi = self.rng(sym)
+        while lo <= hi and lo in self.ne[sym]:
+            lo += 1
+        while hi >= lo and hi in self.ne[sym]:
+            hi -= 1
+        self.pc[sym] = (lo, hi)
+        return lo <= hi
+
+    def can_be(self, sym, v):
+        lo, hi = self.rng(sym)
+        return lo <= v <= hi and v not in self.ne.get(sym, ())
 
     def rng(self, sym, default=(-(1 << 70), 1 << 70)):
         return self.pc.get(sym, default)
@@ -83,6 +104,42 @@ class Interp(object):
         self.max_paths = max_paths
         self.watch_members = watch_members
         self.n_paths = 0
+
+    def _merge(self, paths, keyfn):
+        """Join paths that agree on keyfn: interval hull, intersection of
+        excluded values (a sound over-approximation of their union)."""
+        groups = {}
+        order = []
+        for p in paths:
+            k = keyfn(p)
+            if k not in groups:
+                groups[k] = p
+                order.append(k)
+                continue
+            g = groups[k]
+            for sym in set(g.pc) | set(p.pc):
+                a, b = g.pc.get(sym), p.pc.get(sym)
+                if a is None or b is None:
+                    g.pc.pop(sym, None)
+                else:
+                    g.pc[sym] = (min(a[0], b[0]), max(a[1], b[1]))
+            for sym in set(g.ne) | set(p.ne):
+                g.ne[sym] = frozenset(g.ne.get(sym, ())) & frozenset(p.ne.get(sym, ()))
+            if len(p.events) > len(g.events):
+                g.events = p.events
+            g.nforks = max(g.nforks, p.nforks)
+        return [groups[k] for k in order]
+
+    def on_call(self, fn, e, st, path):
+        """Hook for subclasses: return a list of resulting paths, or None."""
+        return None
+
+    def make_sub(self):
+        sub = type(self)(self.prog, self.emit, self.inline, self.pure_syms, self.max_paths, self.watch_members)
+        for k_, v_ in self.__dict__.items():
+            if k_ not in ("n_paths",):
+                setattr(sub, k_, v_)
+        return sub
 
     # ---------------------------------------------------------------- eval
     def ev(self, fn, i, path, top=False):
@@ -113,6 +170,8 @@ class Interp(object):
             # folded by clang (literals, enumerators, sizeof, constexpr)
             if not any(fn.s(x)["k"] == "DeclRefExpr" and fn.s(x)["ref"]["k"] in ("local", "parm") for x in fn.walk(i)):
                 return C(st["cv"])
+        if k == "StringLiteral":
+            return ("p", tuple(st.get("bytes", ())), 0)
         if k in ("IntegerLiteral",):
             return C(st["v"])
         if k == "CharacterLiteral":
@@ -142,6 +201,10 @@ class Interp(object):
             # fold symbols with point intervals
             a = self._point(a, path)
             b = self._point(b, path)
+            if op == "&&" and ((is_c(a) and not a[1]) or (is_c(b) and not b[1])):
+                return C(0)
+            if op == "||" and ((is_c(a) and a[1]) or (is_c(b) and b[1])):
+                return C(1)
             if is_c(a) and is_c(b):
                 try:
                     x, y = a[1], b[1]
@@ -167,7 +230,28 @@ class Interp(object):
                     return C(int(t))
             return UNK
         if k == "UnaryOperator":
+            if st["op"] in ("++", "--"):
+                # the element already executed: a prefix form has the new
+                # value, a postfix form the old one
+                a = self._point(self.ev(fn, ch[0], path), path)
+                d = 1 if st["op"] == "++" else -1
+                if not st.get("postfix"):
+                    return a
+                if is_c(a):
+                    return C(wrap(a[1] - d, st.get("tk")))
+                if is_s(a) and len(a) == 3:
+                    return ("s", a[1], a[2] - d)
+                if a[0] == "p":
+                    return ("p", a[1], a[2] - d)
+                return UNK
             a = self._point(self.ev(fn, ch[0], path), path)
+            if st["op"] == "*" and a[0] == "p":
+                b, o = a[1], a[2]
+                if 0 <= o < len(b):
+                    return C(wrap(b[o], "s8"))
+                if o == len(b):
+                    return C(0)     # the literal's terminator
+                return UNK
             if is_c(a):
                 if st["op"] == "-":
                     return C(wrap(-a[1], st.get("tk")))
@@ -182,8 +266,17 @@ class Interp(object):
             c = self._point(self.ev(fn, ch[0], path), path)
             if is_c(c):
                 return self.ev(fn, ch[1] if c[1] else ch[2], path)
+            a1 = self._point(self.ev(fn, ch[1], path), path)
+            a2 = self._point(self.ev(fn, ch[2], path), path)
+            if is_c(a1) and is_c(a2):
+                if a1 == a2:
+                    return a1
+                if a1[1] != 0 and a2[1] != 0:
+                    return ("nz",)   # unknown, but certainly non-zero
             return UNK
         if k in P.CALL_KINDS:
+            if i in path.callval:
+                return path.callval[i]
             nm = st.get("callee", {}).get("q", "").split("::")[-1]
             if nm in self.pure_syms:
                 sym = fn.text(i)
@@ -236,16 +329,18 @@ class Interp(object):
                 return True
             if ra[1] < rb[0]:
                 return False
-        elif op == "==":
+        elif op in ("==", "!="):
+            eq = None
             if ra[0] == ra[1] == rb[0] == rb[1]:
-                return True
-            if ra[1] < rb[0] or rb[1] < ra[0]:
-                return False
-        elif op == "!=":
-            if ra[0] == ra[1] == rb[0] == rb[1]:
-                return False
-            if ra[1] < rb[0] or rb[1] < ra[0]:
-                return True
+                eq = True
+            elif ra[1] < rb[0] or rb[1] < ra[0]:
+                eq = False
+            else:
+                for x, y in ((a, b), (b, a)):
+                    if is_s(x) and len(x) == 3 and is_c(y) and path.excluded(x[1], y[1] - x[2]):
+                        eq = False
+            if eq is not None:
+                return eq if op == "==" else not eq
         return None
 
     # ------------------------------------------------------------- refine
@@ -261,17 +356,17 @@ class Interp(object):
         v = self._point(self.ev(fn, i, path), path)
         if is_c(v):
             return bool(v[1]) == pol
+        if v == ("nz",):
+            return pol is True
         if is_s(v) and len(v) == 3:
             # truthiness of a symbol: non-zero / zero
             lo, hi = path.rng(v[1])
             k = -v[2]
             if pol:
-                if lo == k:
-                    lo += 1
-                if hi == k:
-                    hi -= 1
-            else:
-                lo, hi = max(lo, k), min(hi, k)
+                return path.exclude(v[1], k)
+            if path.excluded(v[1], k):
+                return False
+            lo, hi = max(lo, k), min(hi, k)
             if lo > hi:
                 return False
             path.pc[v[1]] = (lo, hi)
@@ -297,25 +392,67 @@ class Interp(object):
                 elif op == ">=":
                     lo = max(lo, k)
                 elif op == "==":
+                    if path.excluded(a[1], k):
+                        return False
                     lo, hi = max(lo, k), min(hi, k)
                 elif op == "!=":
-                    if lo == k:
-                        lo += 1
-                    if hi == k:
-                        hi -= 1
+                    return path.exclude(a[1], k)
                 if lo > hi:
                     return False
                 path.pc[a[1]] = (lo, hi)
+            elif is_s(a) and is_s(b) and len(a) == 3 and len(b) == 3 and a[2] == 0 and b[2] == 0:
+                if not pol:
+                    op = {"<": ">=", ">": "<=", "<=": ">", ">=": "<", "==": "!=", "!=": "=="}[op]
+                if op == "==":
+                    la, ha = path.rng(a[1])
+                    lb, hb = path.rng(b[1])
+                    lo, hi = max(la, lb), min(ha, hb)
+                    if lo > hi:
+                        return False
+                    ne = frozenset(path.ne.get(a[1], ())) | frozenset(path.ne.get(b[1], ()))
+                    path.pc[a[1]] = path.pc[b[1]] = (lo, hi)
+                    if ne:
+                        path.ne[a[1]] = path.ne[b[1]] = ne
+                        for v_ in ne:
+                            if not path.exclude(a[1], v_) or not path.exclude(b[1], v_):
+                                return False
         return True
 
+    def refine_multi(self, fn, cond, pol, path, depth=0):
+        """Like refine, but handles && / || / ! by case split.  Returns the
+        list of refined clones of path (empty = infeasible)."""
+        i = fn.strip(cond, casts=True)
+        st = fn.s(i)
+        if depth < 8 and st["k"] == "UnaryOperator" and st["op"] == "!":
+            return self.refine_multi(fn, st["c"][0], not pol, path, depth + 1)
+        if depth < 8 and st["k"] == "BinaryOperator" and st["op"] in ("&&", "||"):
+            a, b = st["c"]
+            conj = (st["op"] == "&&") == pol
+            if conj:
+                # both operands take polarity pol
+                out = []
+                for p1 in self.refine_multi(fn, a, pol, path, depth + 1):
+                    out.extend(self.refine_multi(fn, b, pol, p1, depth + 1))
+                return out
+            out = list(self.refine_multi(fn, a, pol, path, depth + 1))
+            for p1 in self.refine_multi(fn, a, not pol, path, depth + 1):
+                out.extend(self.refine_multi(fn, b, pol, p1, depth + 1))
+            return out
+        p2 = path.clone()
+        if self.refine(fn, cond, pol, p2):
+            return [p2]
+        return []
+
     # ---------------------------------------------------------------- run
-    def run(self, fn, init_env=None, init_pc=None, depth=0):
+    def run(self, fn, init_env=None, init_pc=None, depth=0, init_ne=None):
         """All paths of fn.  init_env: {decl id: AV}."""
         p0 = Path()
         if init_env:
             p0.env.update(init_env)
         if init_pc:
             p0.pc.update(init_pc)
+        if init_ne:
+            p0.ne.update(init_ne)
         done = []
         self._walk(fn, fn.cfg["entry"], p0, done, depth)
         return done
@@ -336,8 +473,16 @@ class Interp(object):
                 if "cond" in hb and hb.get("termk") != "SwitchStmt":
                     cv_ = self._point(self.ev(fn, hb["cond"], path), path)
                     static_head = is_c(cv_)
-                if (path.seenf[b] != path.nforks and not static_head) or path.blocks.count(b) > 40:
-                    path.end = "loop"
+                ak = getattr(self, "abs_key", None)
+                covered = True
+                if ak is not None:
+                    k_now = ak(path)
+                    seen_keys = path.seenf.get(("abs", b), frozenset())
+                    covered = k_now in seen_keys
+                    path.seenf[("abs", b)] = seen_keys | {k_now}
+                over = path.blocks.count(b) > getattr(self, "max_unroll", 40)
+                if (path.seenf[b] != path.nforks and not static_head and covered) or over:
+                    path.end = "loop" if (covered or ak is None) else "budget"
                     self.n_paths += 1
                     done.append(path)
                     return
@@ -345,12 +490,14 @@ class Interp(object):
                 for k_ in list(path.seenf):
                     if isinstance(k_, int) and k_ != b:
                         del path.seenf[k_]
-            elif path.blocks.count(b) > 40:
+            elif path.blocks.count(b) > getattr(self, "max_unroll", 40):
                 path.end = "loop"
                 self.n_paths += 1
                 done.append(path)
                 return
             path.seenf[b] = path.nforks
+            if getattr(self, "abs_key", None) is not None and ("abs", b) not in path.seenf:
+                path.seenf[("abs", b)] = frozenset({self.abs_key(path)})
             path.blocks.append(b)
             blk = blocks[b]
             cont = self._exec_block(fn, blk, path, depth)
@@ -429,8 +576,7 @@ class Interp(object):
             for pol, s in ((True, succ[0]), (False, succ[1])):
                 if s < 0:
                     continue
-                p2 = path.clone()
-                if self.refine(fn, blk["cond"], pol, p2):
+                for p2 in self.refine_multi(fn, blk["cond"], pol, path):
                     out.append((s, p2))
             if len(out) > 1:
                 for _, p2 in out:
@@ -499,6 +645,8 @@ class Interp(object):
                             p.env[l["ref"]["d"]] = C(wrap(v[1] + d, l.get("tk")))
                         elif is_s(v) and len(v) == 3:
                             p.env[l["ref"]["d"]] = ("s", v[1], v[2] + d)
+                        elif v[0] == "p":
+                            p.env[l["ref"]["d"]] = ("p", v[1], v[2] + d)
                         else:
                             p.env[l["ref"]["d"]] = UNK
                         p.events.append(("incr", l["ref"]["n"], 1 if st["op"] == "++" else -1, e))
@@ -507,6 +655,10 @@ class Interp(object):
                     newpaths.append(p)
                 elif k in P.CALL_KINDS and "callee" in st:
                     q = st["callee"]["q"]
+                    hooked = self.on_call(fn, e, st, p)
+                    if hooked is not None:
+                        newpaths.extend(hooked)
+                        continue
                     # arguments bound to non-const references are clobbered
                     cal = self.prog.fns.get(st["callee"]["key"])
                     if cal is not None:
@@ -531,7 +683,7 @@ class Interp(object):
                             args.append((v, ct, a))
                         p.events.append(("call", q, args, e, st["callee"]["key"]))
                         newpaths.append(p)
-                    elif any(q.endswith(s) for s in self.inline) and depth < 3 and st["callee"]["key"] in self.prog.fns:
+                    elif any(q.endswith(s) for s in self.inline) and depth < getattr(self, "max_depth", 3) and st["callee"]["key"] in self.prog.fns:
                         callee = self.prog.fns[st["callee"]["key"]]
                         env2 = {}
                         for prm, a in zip(callee.params, st.get("args", [])):
@@ -543,13 +695,20 @@ class Interp(object):
                         for mk in list(p.env):
                             if isinstance(mk, str):
                                 env2[mk] = p.env[mk]
-                        sub = Interp(self.prog, self.emit, self.inline, self.pure_syms, self.max_paths, self.watch_members)
+                        sub = self.make_sub()
                         sub.n_paths = self.n_paths
-                        if hasattr(self, "sym_cap"):
-                            sub.sym_cap = self.sym_cap
-                        subpaths = sub.run(callee, env2, dict(p.pc), depth + 1)
+                        subpaths = sub.run(callee, env2, dict(p.pc), depth + 1, init_ne=dict(p.ne))
                         self.n_paths = sub.n_paths
                         for sp in subpaths:
+                            if sp.end == "loop":
+                                continue     # its continuations are covered by the other paths
+                            if sp.end == "budget":
+                                bp = p.clone()
+                                bp.end = "stop"
+                                bp.events.append(("budget", q, e))
+                                newpaths.append(bp)
+                                self.budget_hit = True
+                                continue
                             np = p.clone()
                             np.pc = dict(sp.pc)
                             np.events = p.events + [("enter", q, e)] + sp.events[0:] + [("leave", q, sp.ret, e)]
@@ -558,12 +717,31 @@ class Interp(object):
                                     np.env[mk] = sp.env[mk]
                             if sp.end == "stop":
                                 np.end = "stop"
+                            np.ne = dict(sp.ne)
+                            np.callval[e] = sp.ret if sp.ret is not None else UNK
+                            ai = getattr(self, "after_inline", None)
+                            if ai is not None:
+                                ai(fn, e, np)
                             newpaths.append(np)
+                        mk = getattr(self, "merge_key", None)
+                        if mk is not None and len(newpaths) > 1:
+                            newpaths = self._merge(newpaths, mk)
                     else:
                         newpaths.append(p)
                 elif k == "ReturnStmt":
                     ch = [c for c in st["c"] if c is not None and c >= 0]
                     p.ret = self._point(self.ev(fn, ch[0], p), p) if ch else None
+                    if ch and p.ret == UNK and fn.d.get("retk") == "bool" and getattr(self, "split_bool_returns", False):
+                        # decide an undecided boolean result by case split
+                        made = False
+                        for pol in (True, False):
+                            for p2 in self.refine_multi(fn, ch[0], pol, p):
+                                p2.ret = C(1 if pol else 0)
+                                p2.events.append(("return", p2.ret, e))
+                                newpaths.append(p2)
+                                made = True
+                        if made:
+                            continue
                     p.events.append(("return", p.ret, e))
                     newpaths.append(p)
                 else:
